@@ -48,6 +48,7 @@ class RunnerBasics(Harness):
             {"M": 2, "A": 2, "H": 0, "S": 1, "acts": L, "pre": 0, "cap": 2},
             {"M": 1, "A": 2, "H": 0, "S": 1, "acts": L, "pre": 1, "cap": 2},
             {"M": 1, "A": 1, "H": 0, "S": 2, "acts": LM, "pre": 0, "cap": 1},
+            {"M": 2, "A": 1, "H": 0, "S": 1, "acts": L, "pre": 0, "cap": 1, "empty_sessions": True, "ttl": [1, None]},
             # orders with a time-to-live of one step placed in a two-step session without execution (they expire
             # while the market is not running)
             {"M": 1, "A": 2, "H": 0, "S": 1, "acts": L, "pre": 2, "cap": 2, "ttl": [1], "script": "expire-in-pre"},
@@ -89,8 +90,15 @@ class RunnerBasics(Harness):
         sessions = []
         if case["pre"]:
             sessions.append(rn.session("pre", case["pre"], True, False, maxNormalOrders=case["cap"]))
+        if case.get("empty_sessions"):
+            sessions.append(rn.session("empty-first", 0, True, True, maxNormalOrders=case["cap"]))
         sessions.append(rn.session("main", case["S"], True, True, maxNormalOrders=case["cap"],
                                    maxHighFrequencyOrders=1))
+        if case.get("empty_sessions"):
+            # sessions of zero steps and a closed session (no placement) still have their begin / end / step records
+            sessions.append(rn.session("empty-mid", 0, True, False, maxNormalOrders=case["cap"]))
+            sessions.append(rn.session("closed", 2, False, False, maxNormalOrders=case["cap"]))
+            sessions.append(rn.session("empty-last", 0, False, False, maxNormalOrders=case["cap"]))
         extra = None
         if case.get("script") == "halt":
             sessions[-1]["events"] = ["HALT"]
